@@ -70,22 +70,3 @@ func init() {
 		}
 	}
 }
-
-func init() {
-	checks["SRVDBG2"] = func(r *Result, rng *rand.Rand, thorough bool) {
-		c := SrvCase{Seed: []string{"file /c " + hx([]byte("123456789")), "link /l1 c"}}
-		c.Cfg = SrvCfg{AttrTTL: 5 * time.Second}
-		c.Ops = []SOp{
-			{Kind: "lookup", Dir: "/", Name: "c"},
-			{Kind: "write", Dir: "/l1", Off: 20, Data: []byte("zz")},
-			{Kind: "lookup", Dir: "/", Name: "c"},
-			{Kind: "getattr", Dir: "/c"},
-		}
-		w := c.world()
-		for _, o := range c.Ops {
-			res := w.do(o)
-			fmt.Println(o.String(), "->", replySig(o, res))
-		}
-		w.Close()
-	}
-}
